@@ -228,6 +228,25 @@ reg('C03', 'exploration',
     'own arrays (C01); single OpenMP thread; min_iterations <= '
     'max_iterations.')
 
+reg('C04', 'exploration',
+    'differential execution of whole time steps: the compiled integrator '
+    'against literal Python execution of its one_timestep function on a '
+    'reference object (Python stepper methods over real particles, separate '
+    'neighbour search, documented group semantics), comparing every property '
+    'of every array, post-stage callback arguments and py_stage hook calls '
+    'after each of three consecutive steps; a slice also under gcc '
+    'ASan+UBSan with the generated module instrumented',
+    'Held on every program explored: per quick run 16 generated programs '
+    '(one_timestep of 1-5 stages, 1-3 equation sets, update_nnps=False, '
+    'steppers with py_stage hooks / attributes / strided and int '
+    'properties, different stepper per array) bit for bit, and 16 of the 168 '
+    '(shipped integrator, triple of shipped steppers) programs to 1e-11 '
+    'relative; thorough runs all 168 (every one of the 14 integrators with '
+    'every one of the 36 steppers) plus 168 generated.',
+    'Reference neighbours from its own LinkedListNNPS (C01), equations by '
+    'the documented group semantics (C02/C03); single OpenMP thread; '
+    'one_timestep restricted to calls the documentation lists.')
+
 _pending = {
 }
 for _i in range(1, 21):
